@@ -107,6 +107,7 @@ type pubReq struct {
 }
 
 type sched struct {
+	probe      *sut.ProbeProvider
 	pubQ       chan pubReq
 	lookupCtx  context.Context
 	lookups    int // lookups started and not finished
@@ -176,7 +177,9 @@ func run(p *plan.Plan, res *Result) {
 	var provider tq.SecretProvider
 	switch p.Scen.Server {
 	case "probe":
-		provider = sut.NewProbeProvider(w, p.Scen.Clients)
+		pp := sut.NewProbeProvider(w, p.Scen.Clients)
+		s.probe = pp
+		provider = pp
 	case "ref":
 		var ex RefExtra
 		decodeExtra(p.Scen.Extra, &ex)
@@ -246,6 +249,9 @@ func finish(s *sched) {
 	w, res := s.w, s.res
 	synctest.Wait()
 	res.Completed = true
+	if s.probe != nil && !s.probe.KeysIntact() {
+		w.Rec(world.Ev{Actor: "sched", Kind: "secret-mutated"})
+	}
 	if s.ref != nil {
 		if mut := s.ref.MutatedPublished(); len(mut) > 0 {
 			w.Rec(world.Ev{Actor: "loader", Kind: "published-mutated", S: fmt.Sprint(mut)})
